@@ -44,7 +44,7 @@ def plan(tier, seed):
 
 
 CFGS = [
-    dict(structured=True), dict(structured=False, multi_part_prob=0.6), dict(defect="nonsmooth", out_units=2), dict(defect="nondecomp", out_units=2),
+    dict(structured=True), dict(structured=False, multi_part_prob=0.6), dict(defect="nonsmooth", out_units=2), dict(defect="nondecomp", out_units=2), dict(defect="nondecomp3", out_units=2), dict(defect="nonsmooth-const", out_units=2),
     dict(structured=True, const_factor_prob=0.4), dict(structured=True, id_mode="sparse"), dict(structured=True, kinds=("poly",)),
     dict(structured=True, outputs=2, out_units=2),
 ]
@@ -64,7 +64,7 @@ def run_case(case) -> Result:
     sigs = set()
     for i in range(case["n"]):
         over = dict(rng.choice(CFGS))
-        over["nvars"] = rng.randint(2, 5)
+        over["nvars"] = rng.randint(3 if over.get("defect") == "nondecomp3" else 2, 5)
         over.setdefault("out_units", rng.choice([1, 2]))
         over.setdefault("kinds", rng.choice([("cat", "embedding", "gaussian"), ("cat",), ("poly",), ("embedding", "gaussian_lp")]))
         cfg = gen.GenCfg(**over)
